@@ -40,32 +40,37 @@ RULE = (
     "Values are built from JSON recipes (ints, bools, floats, complex, str, bytes, None, tuple, list, set, frozenset, "
     "dict, OrderedDict, defaultdict, Counter, deque, bytearray, array.array, ndarray over 14 dtypes incl. object / "
     "0-d / empty / non-contiguous buffers, pandas Series/DataFrame with drawn index labels and order, plain picklable "
-    "objects with __eq__ and no __hash__; depth <= 3). Pair campaigns draw a base value and one structural edit "
-    "(same / insertion-order permutation / other buffer layout => intended equal; container retype, one leaf, length, "
-    "order in an order-significant container, dtype, shape, pandas index label / row order / column order / name => "
-    "intended different) or two independent values; the verdict comes from an independent normal form canon() of the "
-    "built values: strict-equal => keys must be equal with equal hash, loose-different => keys must be unequal, "
+    "objects with __eq__ and no __hash__; depth <= 3, sets/dict keys drawn from one orderable family). Pair campaigns "
+    "draw a base value and one structural edit that is applicable to it (same / insertion-order permutation / other "
+    "buffer layout => intended equal; container retype, one leaf, length, order in an order-significant container, "
+    "dtype, shape, pandas index label / row order / column order / name => intended different; numeric-tower sibling "
+    "=> intended neither) or two independent values; the verdict comes from an independent normal form canon() of the "
+    "*built* values: strict-equal => keys must be equal with equal hash, loose-different => keys must be unequal, "
     "numeric-tower-only differences are in neither class; to_hashable must return and hash(key) must succeed for "
     "every value. 'hard' campaign: un-orderable / partially ordered keys, object arrays with unhashable elements, "
-    "duplicate index labels. 'cross': batches of recipes are rebuilt by two worker interpreters (PYTHONHASHSEED=1 and "
-    "4242, started once per shard); the unpickled keys of natively handled values must equal each other and the "
-    "harness key (PYTHONHASHSEED=0). 'memo': a memoize-d tracer returning canon(loose) of its own arguments, over "
-    "Simple/LRU/Hybrid/Disk(with and without LRU) caches, must return for each call a value equal to the tracer "
-    "value of that call. Non-trivial = pair (or batch element / call sequence) of depth >= 2 or involving "
-    "ndarray/pandas; distinct by sha1 of the case; look-alike pairs are >= 40 % of the pair cases by campaign sizes."
+    "duplicate index labels. 'cross': batches of 14-15 recipes are rebuilt by two worker interpreters "
+    "(PYTHONHASHSEED=1 and 4242, started once per shard, closed by an exit finalizer); the unpickled keys of natively "
+    "handled values must equal each other and the harness key (PYTHONHASHSEED=0). 'memo': a memoize-d tracer returning "
+    "canon(loose) of its own arguments, over Simple/LRU/Hybrid/Disk(with and without LRU) caches, must return for "
+    "each call of a 3-7 call sequence (look-alike arguments, positional and keyword) a value equal to the tracer value "
+    "of that call. Non-trivial = pair (batch element / call sequence of >= 3 calls) of depth >= 2 or involving "
+    "ndarray/pandas; distinct by sha1 of the case; look-alike pairs are ~55 % of all pair cases (>= 40 % required)."
 )
 ASSUMPTIONS = [
     "no NaN, no -0.0, no values containing the private marker string '__CONVERTED__'",
     "pairs differing only within the numeric tower (1 / 1.0 / True / 1+0j), in deque.maxlen, defaultdict.default_factory, "
     "array.array typecode, Counter zero entries or a pandas dtype are in neither class (no expectation)",
-    "row order and column order of a Series/DataFrame are treated as significant (pandas .equals is order-sensitive and "
-    "positional access differs); each has its own bucket so the judgement can be revisited",
+    "row order and column order of a Series/DataFrame are treated as significant (pandas .equals is order-sensitive, "
+    "positional access / .values / iteration differ); each has its own bucket so the judgement can be revisited",
     "pandas values are None-free (None becomes NaN); DataFrame column labels are unique",
     "cross-interpreter equality is required for natively handled types only; values containing a plain object "
     "(cloudpickle fallback) are only labelled",
     "cross-interpreter comparison is on the unpickled keys (==), not on the pickle bytes; byte-level differences are labelled",
-    "memoize: only soundness is checked (a returned result belongs to an equal call); hits on equal calls are labelled",
-    "plain objects define __eq__ on (type, __dict__) and are importable as checks.c15_to_hashable.PlainA/PlainB",
+    "memoize: only soundness is checked (a returned result belongs to a call with equal arguments, where 1 / 1.0 / True "
+    "count as equal); hits on repeated equal calls are labelled, not required",
+    "plain objects define __eq__ on (type, __dict__) and are importable as checks.c15_to_hashable.PlainA/PlainB; equal "
+    "variants *inside* a plain object (attribute/dict insertion order, array buffer layout) are kept in the equal class "
+    "under their own pickle-fallback buckets",
 ]
 
 MARKER = "__CONVERTED__"
@@ -606,9 +611,12 @@ def s_value(d: int, top: bool = False):
     else:
         sub = s_value(d - 1)
         seq = st.lists(sub, max_size=3)
+        homog = st.one_of(st.lists(st.sampled_from(SMALL_INTS), max_size=4), st.lists(S_STR, max_size=3))
         conts = [
             seq.map(_node("tuple")),
             seq.map(_node("list")),
+            homog.map(_node("list")),
+            homog.map(_node("tuple")),
             s_keys().map(_node("set")),
             s_keys().map(_node("frozenset")),
             s_items(sub).map(_node("dict")),
@@ -665,7 +673,7 @@ def s_reorderable():
 
 EQUAL_OPS = ["reorder", "same", "rebuffer"]
 # Hypothesis favours the first/last alternative: the generic edits sit in the middle
-DIFFER_OPS = ["index_order", "dtype", "shape", "retype", "leaf", "length", "name", "index", "columns_order", "order"]
+DIFFER_OPS = ["columns_order", "index_order", "shape", "retype", "leaf", "length", "dtype", "index", "order", "name"]
 TOWER_OPS = ["tower"]  # intended "neither": 1 <-> 1.0 <-> True
 SEQ = ("tuple", "list", "deque")
 MAPS = ("dict", "odict", "ddict")
@@ -704,7 +712,8 @@ def _retype_alts(r) -> list:
     if k == "bytes":
         return [{"k": "bytearray", "hex": r["hex"]}, {"k": "tuple", "items": [int(b, 16) for b in _hex_bytes(r["hex"])]}]
     if k == "bytearray":
-        return [{"k": "bytes", "hex": r["hex"]}, {"k": "list", "items": [int(b, 16) for b in _hex_bytes(r["hex"])]}]
+        ints = [int(b, 16) for b in _hex_bytes(r["hex"])]
+        return [{"k": "bytes", "hex": r["hex"]}, {"k": "list", "items": ints}, {"k": "tuple", "items": ints}]
     if k == "array":
         return [{"k": "list", "items": list(r["data"])}, {"k": "tuple", "items": list(r["data"])}]
     if k == "nd" and len(r["shape"]) == 1 and r["dtype"] != "O":
@@ -1190,21 +1199,26 @@ def _diff_pairs(v1, v2, acc: list) -> list:
 
 
 def _pandas_cause(x, y) -> str:
+    """Name the *only* difference between two pandas objects if it is one of the catalogued kinds."""
     if type(x) is pd.DataFrame and type(y) is pd.DataFrame:
-        cx, cy = canon(x, False), canon(y, False)
-        if cx[2] == cy[2]:  # same columns, same order, same positional values -> only the index differs
+        cx, cy = canon(x, False), canon(y, False)  # ("DataFrame", index labels, ((name, None, values), ...))
+        idx_same, cols_same = cx[1] == cy[1], cx[2] == cy[2]
+        cols_perm = sorted(cx[2], key=repr) == sorted(cy[2], key=repr)
+        if cols_same and not idx_same:
             return "DataFrame-index-not-in-key"
-        if cx[1] == cy[1] and sorted(cx[2], key=repr) == sorted(cy[2], key=repr):
+        if idx_same and cols_perm and not cols_same:
             return "DataFrame-column-order-not-in-key"
-        if sorted(cx[2], key=repr) == sorted(cy[2], key=repr):
+        if cols_perm and not idx_same and not cols_same:
             return "DataFrame-index-not-in-key+DataFrame-column-order-not-in-key"
         return "DataFrame-other"
     if type(x) is pd.Series and type(y) is pd.Series:
-        if not (x.index.is_unique and y.index.is_unique):
+        cx, cy = canon(x, False), canon(y, False)  # ("Series", name, None, index labels, values)
+        rx, ry = list(zip(cx[3], cx[4])), list(zip(cy[3], cy[4]))
+        if cx[1] != cy[1] or rx == ry:
+            return "Series-other"
+        if dict(rx) == dict(ry) and not (x.index.is_unique and y.index.is_unique):
             return "Series-duplicate-labels-collapsed"
-        if sorted(zip(map(repr, x.index.tolist()), map(repr, x.tolist()))) == sorted(
-            zip(map(repr, y.index.tolist()), map(repr, y.tolist()))
-        ):
+        if sorted(rx, key=repr) == sorted(ry, key=repr) and x.index.is_unique:
             return "Series-row-order-not-in-key"
         return "Series-other"
     return type(x).__name__ if type(x) is type(y) else f"{type(x).__name__}-vs-{type(y).__name__}"
